@@ -91,7 +91,14 @@ struct derived_promise : promise<T> {
     static void do_resolve(future<T> *f) { promise<T>::resolve(f); }
 };
 
-static int g_bind_end = 0;   // 0 none, 1 call, 2 move+call, 3 drop (see Scn::bind_end)
+// an argument for promise::bind() whose decay-copy into the bound tuple throws (bind-end throw)
+struct throwing_arg {
+    throwing_arg() = default;
+    throwing_arg(const throwing_arg &) { throw test_exc(99); }
+    operator int() const { return 0; }
+};
+
+static int g_bind_end = 0;   // 0 none, 1 call, 2 move+call, 3 drop, 4 throw (see Scn::bind_end)
 static int g_bind_val = 0;
 
 // ---- pointer-level digest (case kind `chainp`; lean/CoclsModel/ChainPtr.lean, lean/Drivers/C02P.lean) ---------------------------
@@ -400,11 +407,27 @@ struct Scn {
 
     // `bind-end <call|move|drop> <v>`: the controller ends the promise's life through promise::bind(): the promise moves into the
     // returned function object; `call` invokes it (a resolver call sequenced after all others), `move` moves the function object
-    // first and invokes the new one (the moved-from one and a second call must lose), `drop` destroys it uncalled (= ~promise)
+    // first and invokes the new one (the moved-from one and a second call must lose), `drop` destroys it uncalled (= ~promise);
+    // `throw` (int / void payload; `drop` for the others): copying the bound argument into the function object throws — the promise
+    // has already moved into the half-built function object, which is destroyed again: the promise's life ends there (= ~promise)
+    // and bind() reports the exception
     void bind_end(int nthreads) {
         if constexpr (std::is_reference_v<T> || std::is_same_v<T, thrower>) {
             (void)nthreads;
         } else {
+            if constexpr (std::is_same_v<T, int> || std::is_void_v<T>) {
+                if (g_bind_end == 4) {
+                    bool threw = false;
+                    try {
+                        auto fn = prom->bind(throwing_arg());
+                        (void)fn;
+                    } catch (const test_exc &e) {
+                        threw = e.code == 99;
+                    }
+                    if (!threw) anomaly("bind() did not report the exception thrown by the copy of its argument");
+                    return;
+                }
+            }
             auto fn = [&] {
                 if constexpr (std::is_void_v<T>) return prom->bind();
                 else if constexpr (std::is_same_v<T, vec>) return prom->bind(2, g_bind_val);
@@ -428,6 +451,44 @@ struct Scn {
         }
     }
 
+    // what a client may do with a pending future / its promise before anybody resolves it, without any effect on them:
+    // value() (both overloads) reports value_not_ready_exception; a self move-assignment of the promise (through the operator= of
+    // its own class and through the base class's) keeps the promise the owner of the future
+    void pending_accessors() {
+        if (observe([&]() -> decltype(auto) { return fut->value(); }) != "notready") anomaly("value() of a pending future");
+        std::string cval = observe([&]() -> decltype(auto) {
+            if constexpr (std::is_void_v<T>) return std::as_const(*fut).value();
+            else return const_cast<typename FT::reference>(std::as_const(*fut).value());
+        });
+        if (cval != "notready") anomaly("const value() of a pending future");
+        if (!fut->pending() || fut->ready()) anomaly("pending() / ready() of a pending future");
+        {
+            promise<T> &p = *prom;
+            promise<T> &q = *prom;
+            p = std::move(q);
+        }
+        if constexpr (pwd_ok) {
+            if (pwd_kind == "def") {
+                auto &p = *static_cast<promise_with_default<T> *>(prom);
+                auto &q = *static_cast<promise_with_default<T> *>(prom);
+                p = std::move(q);
+            }
+            if constexpr (std::is_same_v<T, int>) {
+                if (pwd_kind == "defv") {
+                    auto &p = *static_cast<promise_with_default_v<int, PWD_V> *>(prom);
+                    auto &q = *static_cast<promise_with_default_v<int, PWD_V> *>(prom);
+                    p = std::move(q);
+                }
+                if (pwd_kind == "defvp") {
+                    auto &p = *static_cast<promise_with_default_vp<int, &pwd_vp_cell> *>(prom);
+                    auto &q = *static_cast<promise_with_default_vp<int, &pwd_vp_cell> *>(prom);
+                    p = std::move(q);
+                }
+            }
+        }
+        if (prom->get_id() != static_cast<const void *>(&*fut) || !fut->pending()) anomaly("self move-assignment of the owning promise");
+    }
+
     bool assign_end = false;   // the controller overwrites the promise by move-assignment instead of destroying it
     int assign_from_val = -1;  // >= 0: the controller move-assigns the promise_with_default into a fresh one with this default
     int anomalies = 0;
@@ -440,6 +501,7 @@ struct Scn {
         if (fut->initialized()) anomaly("initialized() after get_promise()");
         if (prom->get_id() != static_cast<const void *>(&*fut)) anomaly("get_id() of the owning promise");
         if (!*prom || !static_cast<bool>(*prom)) anomaly("operator bool / operator! of the owning promise");
+        pending_accessors();
         S().name_obj(&fut->_awaiter, "slot");
         S().name_obj(&prom->_owner, "owner");
         S().name_ptr(&awaiter::instance, "inst");
@@ -551,7 +613,7 @@ static void run_case(const std::vector<std::string> &hdr, const std::vector<std:
     int pwd_val = 0;
     for (auto &w : lines) {
         if (w[0] == "assign-end") assign_end = true;
-        if (w[0] == "bind-end" && w.size() > 2) { g_bind_end = w[1] == "call" ? 1 : w[1] == "move" ? 2 : 3; g_bind_val = atoi(w[2].c_str()); }
+        if (w[0] == "bind-end" && w.size() > 2) { g_bind_end = w[1] == "call" ? 1 : w[1] == "move" ? 2 : w[1] == "throw" ? 4 : 3; g_bind_val = atoi(w[2].c_str()); }
         if (w[0] == "assign-from" && w.size() > 1) assign_from = atoi(w[1].c_str());
         if (w[0] == "pwd" && w.size() > 2) { pwd_kind = w[1]; pwd_val = atoi(w[2].c_str()); }
         if (w[0] == "r" || w[0] == "w" || w[0] == "d") threads.push_back(w);
